@@ -42,7 +42,7 @@ MCInit ==
       /\ budget = plan
       /\ stk = <<Frame0>> /\ cur = "none"
       /\ gen = [x \in Jobs |-> 0]
-      /\ avail = [x \in Jobs |-> [g \in Gens |-> FALSE]]
+      /\ avail = [x \in Jobs |-> [g \in Gens |-> {}]]
       /\ prov = [x \in Jobs |-> [g \in Gens |-> NoIns]]
       /\ version = [x \in Jobs |-> 1]
       /\ attempts = [x \in Jobs |-> [ph \in PhSet |-> 0]]
